@@ -560,4 +560,17 @@ example : exWorld.heap.Ok ∧ 0 < exWorld.heap.size ∧
   refine ⟨wexec_ok _ _ Heap.empty_ok, ?_⟩
   decide +kernel
 
+/-
+  Outside the model (see manifest.d/C01.json):
+  * validated only: the symbolic path — `compute_unitary(use_symbolic=True)` is compared, after numeric
+    evaluation of its entries (with values, and with the variables left symbolic and substituted afterwards),
+    with the same product; `unitaryOf_map` is the statement behind it, sympy itself is trusted;
+  * validated only: which Python object stands for which pool entry (`a // x`, `a @ x` on a `Circuit` return a
+    second handle on the same entry; the harness evaluates through every handle);
+  * stated, not proved: every acyclic history of the real API is a ranked history;
+  * not modelled: undefined parameters at `copy()` / evaluation time, the per-circuit parameter registry
+    (`_params`, `assign={…}`), bounds and periodic wrapping of `Parameter` (C14), `Expression` parameters,
+    `copy(subs=…)`, polarisation (C13), `inverse` (C11), cyclic `add` (evaluation does not terminate).
+-/
+
 end PM.C01
